@@ -25,7 +25,7 @@ CHECKS = {
          "Seeded search over histories in which the same circuit objects (including the module-level shared gate instances) are reused as arguments; after every step every circuit/state that is not a declared target must be bit-identical, and after a call that raised nothing at all may have changed; argument circuits must also answer a fixed follow-up program as before (state the four observables do not show), and caller-side mutation of an array handed over earlier (no library call) may change nothing.",
          "Trusted: the harness's declaration of targets per operation (DESIGN Appendix A), numpy equality, fork isolation between runs."),
  "C09": ("deterministic simulation: rewrites scheduled between other clients' steps, including under live consumers; invariance + sharing checks by later mutation",
-         "Seeded histories in which rewrites and (frozen) copies are applied to circuits other parties hold; U_full/heralds/sizes before vs after (1e-9), structure postconditions, parameter list of the original around copy(), bit-identity of every copy-related object under later mutation of the other, an un-rewritten twin followed through later parameter updates, and unchanged later behaviour of heralded relatives.",
+         "Seeded histories in which rewrites and (frozen) copies are applied to circuits other parties hold; U_full/heralds/sizes before vs after (1e-9), structure postconditions, parameter list of the original around copy(), bit-identity of every copy-related object under later mutation of the other, an un-rewritten twin followed through later parameter updates, unchanged later behaviour of heralded relatives, and unchanged component layout of every other circuit around each rewrite or copy.",
          "Trusted: obs() of circuits through the public API; structure postconditions read _get_circuit_spec(). The 'U unchanged' clause is sampled by the histories produced, nothing more."),
  "C10": ("deterministic simulation with fault injection (rejected updates, poison/heal): parameter-triple model, constant-twin refinement, parameter-list check after every step",
          "Seeded interleavings of parameter updates (direct, through ParameterDict, bounds, rejected ones, component-invalid 'poison' values and their healing) with construction, copying, freezing, rewriting and reads; every circuit with parameters is compared after every step with a twin rebuilt from its construction log with constants.",
